@@ -4,7 +4,7 @@
 TIER=${1:-quick}; SEEDS=${2:-"1 2 3"}; B=${3:-}
 cd "$(dirname "$0")/.."
 for s in $SEEDS; do
-  for p in C01 C12 C02 C11 C13 C08 C10 C16 C18 C20 C05 C06; do
+  for p in ${PROPS:-C01 C12 C02 C11 C13 C08 C10 C16 C18 C20 C05 C06}; do
     if [ -n "$B" ]; then export VERIF_BUDGET_S=$B; fi
     out=$(VERIF_SEED=$s bin/check $p --tier $TIER --no-evidence 2>&1); rc=$?
     echo "seed=$s $p tier=$TIER exit=$rc $(echo "$out" | grep -E '^(C[0-9]+ (quick|thorough):)' | cut -c1-90)"
